@@ -52,6 +52,8 @@ class InstanceManager:
     def _get_instance_state(self, instance_uuid):
         instance = self._instances[instance_uuid]
         session_state = copy.deepcopy(instance['instance'].session_state)
+        if session_state is None:
+            return InstanceState(None, instance_uuid, instance["time"], instance["timeout"], None)
         session_state["lock"] = False
         return InstanceState(session_state, instance_uuid, instance["time"], instance["timeout"], session_state["step"])
             
